@@ -35,6 +35,7 @@ var slotConsumerNames = []string{
 	"InSp_K0", "InGG_K0", "InSG_K0", "TwiceIn_K2", "Twice_K0", "Twice_S4", "InIgn_K0", "InIgn_S4",
 	"InEmb_K0", "InEmb_S4", "InEmb_K2", "InEmb_S5", "VoidIn", "MR_K0K1_d", "OutP_K2K3_d", "MR_K2K3e",
 	"RetI_K1", "BIdep_S6", "InLast_K0", "InLast_S4", "OutLast_K2K3", "InIgnMid_K0", "InIgnMid_S4", "CloDep_K2_a", "CloDep_K2_b", "CloIn_K3_a", "CloIn_K3_b",
+	"InPtr_K0", "InPtr_S4", "InPtr_K2", "OutPtr_K2K3",
 }
 
 type slotIdent struct{ T, Key, Group string }
